@@ -62,8 +62,17 @@ case "$id" in
   *) echo "usage: $0 <C11|C13|C14|C19> <quick|thorough> | <id> --replay <file> | --build-only"; exit 2;;
 esac
 
+# identity of the harness sources: a replay script answers the generators' draws, so it is only meaningful for
+# the harness that wrote it
+VERIF_HARNESS=$(cd "$VERIF/sim" && find . -name '*.go' -o -name 'go.mod' -o -name '*.s' | LC_ALL=C sort | xargs cat | sha256sum | cut -c1-16)
+export VERIF_HARNESS
+
 if [ "$mode" = "--replay" ]; then
   file=${3:?replay file}
+  rh=$(python3 -c "import json,sys; print(json.load(open(sys.argv[1])).get('harness') or '')" "$file")
+  if [ "$rh" != "$VERIF_HARNESS" ]; then
+    echo "note: $file was written by harness '${rh:-unknown}', this is harness '$VERIF_HARNESS': if the generators changed in between, the script means a different run and a replay that comes out clean says nothing about the tree" >&2
+  fi
   runlist=$(python3 -c "import json,sys; print(','.join(str(x) for x in json.load(open(sys.argv[1])).get('run_list') or []))" "$file")
   if [ -n "$runlist" ]; then
     # the violation depends on the history of the process: execute the recorded list of runs in one fresh process
